@@ -166,7 +166,27 @@ def rule_cover(ctx):
     for kind, val, s, since, vis in info["body_paths"]:
       if kind in ("break", "return"):
         probs.append("search loop left by `%s`" % kind)
-  ctx.record(R, f.where, "all giant steps and both signs examined", not probs, "; ".join(sorted(set(probs))) or "no exit from the search loops")
+  # every giant step's x-coordinate is looked up in the table (the table holds None -> 0 for the point at infinity, so an exact multiple of t
+  # is found through x = None as well): each pass of the giant-step loop must decide `x in self._table` for its own x
+  table = sym.mk("attr", SELF, "_table")
+  n_giant = 0
+  for info in w.loop_info.values():
+    it = None if isinstance(info["iter"], Seq) else as_poly(info["iter"]).as_atom()
+    if it is None or it.kind != "enumerate" or "BatchAddX" not in repr(it.args[0]):
+      continue
+    for kind, val, s, since, vis in info["body_paths"]:
+      n_giant += 1
+      itv = as_poly(vis["iter"]).as_atom() if not isinstance(vis["iter"], Seq) else it
+      x = sym.mk("idx", itv.args[0], as_poly(vis["k"]))
+      newf = s.facts[len(vis["head"].facts):]
+      looked = any(fc[0] == "cmp" and fc[1] in ("In", "NotIn") and not isinstance(fc[2], Seq) and as_poly(fc[2]) == x and not isinstance(fc[3], Seq) and as_poly(fc[3]) == table
+                   for fc in newf)
+      if not looked:
+        probs.append("a giant step is passed over without looking its x-coordinate up in the table (%s): logs at that offset are lost" %
+                     (" & ".join("%s %s" % (fc[1], "x" if not isinstance(fc[2], Seq) and as_poly(fc[2]) == x else "..") for fc in newf if fc[0] == "cmp") or "unconditional"))
+  if n_giant == 0:
+    probs.append("giant-step loop over BatchAddX(p, list_c) not found")
+  ctx.record(R, f.where, "all giant steps and both signs examined", not probs, "; ".join(sorted(set(probs))) or "no exit from the search loops; every giant step is looked up")
 
 
 def rule_table(ctx):
